@@ -9,21 +9,41 @@ def classify(inp, obs, tags):
     return [f"{kind}:{cls}"], not trivial
 
 
+def classify_faults(inp, obs, tags):
+    ops = [t for t in inp.split() if "=" not in t]
+    out = [t for t in tags if t.startswith(("decode-alloc:", "xo:"))]
+    out += ["fault:" + o.split(":")[0] for o in ops if o[0] == "x"]
+    return out, any(o[0] == "x" for o in ops)
+
+
 PROP = dict(
     engines=[dict(
         name="codec", classify=classify,
         quick=dict(cases=24000, shards=4, profiles=["debug", "release"]),
         thorough=dict(cases=2000000, shards=16, profiles=["debug", "release"]),
+    ), dict(
+        # rollback change records: the decoders are driven through the real rollback on damaged records
+        name="rawvec", classify=classify_faults,
+        quick=dict(cases=1400, shards=4, profiles=["debug"], extra=["--faults"]),
+        thorough=dict(cases=64000, shards=16, profiles=["debug", "release"], extra=["--faults"]),
     )],
     rule="inputs: 12 codec case kinds in rotation (metadata slots 60% valid / 40% boundary+malformed, encoders at and "
          "around the limits, headers, pages, numeric widths 1-16, byte arrays, regions files with mixed valid/invalid "
          "slots), all from one SplitMix64 state; non-trivial = not rejected by the very first length check; distinct = "
-         "distinct input string",
+         "distinct input string.  Change records (engine rawvec --faults): a generated commit history on a real raw vector, then "
+         "ONE fault on the record rollback would decode (deleted, truncated at every byte offset, each of the 7 length fields "
+         "overwritten with 0, 1, 2^32, 2^63, 2^64-1, value+-1), then rollback / rollback_before; oracle: no panic, and the largest "
+         "single allocation request during the decode (recorded by the harness's global allocator) stays within 8x the size of "
+         "change files + region + 1 MiB",
     trusted_base=["UTF-8 validity is modelled by a hand-written DFA (Codec/Utf8.v), validated against String::from_utf8 differentially"],
-    assumptions=["change-record codecs are covered under C16 (same engine family)"],
+    assumptions=["the in-memory size of a decoded element equals its on-disk width (true of the numeric and byte-array element types "
+                 "the change-record theorems are instantiated with)"],
 )
 
 ENGINES = [
+    dict(name="rawvec", path="harness/src/eng_rawvec.rs + ocaml/eng_rawvec.ml", serves_properties=["C03", "C04", "C16", "C17"],
+         kind_free_text="fault stream on the real change directory: damaged change records decoded by the real rollback; "
+                        "model-level comparison with the extracted parser, panic and allocation-size oracles"),
     dict(name="codec", path="harness/src/eng_codec.rs + ocaml/eng_codec.ml", serves_properties=["C17"],
          kind_free_text="differential: real decoders/encoders vs extracted Coq codecs, plus implementation-only round-trip/validity oracles"),
 ]
@@ -35,9 +55,14 @@ TEXT = dict(
           "region-metadata, vector-header, Format, page-index and numeric/byte-array codecs round-trip every valid "
           "value, that decoding returns an error or a value satisfying the validity rules and never panics, that the "
           "id allocation is bounded by the input, and that Regions::fill decodes each slot from its own bytes only "
-          "(invalid slots skipped). The models use offsets/limits regenerated from the source on every run and are "
+          "(invalid slots skipped). Rollback change records (Props/C17change.v): the raw record codec round-trips every "
+          "valid record, rejects EVERY truncation and EVERY extension of ANY accepted input, never panics, and the one "
+          "count-sized read (ChangeCursor::read_values) never requests more memory than the bytes remaining in its input "
+          "(C17_change_values_alloc) — proved about the ORDER OF STEPS regenerated from cursor.rs on every run "
+          "(Gen/CursorOrder.v; C17_change_values_is_source ties it to the parser model), and observed on the real code by an "
+          "allocation watch while damaged records are decoded. The models use offsets/limits regenerated from the source on every run and are "
           "validated against the real decoders differentially (debug and release builds)."),
     note=("Trusted: Coq kernel; the translator gen_consts.py; extraction (ExtrOcamlBasic) and the OCaml driver; the "
           "Rust harness. The Rust code itself is modelled, not verified: the tie is the regenerated constants plus "
-          "differential agreement on generated inputs (bounded sample). Rollback change-record codecs are handled under C16."),
+          "differential agreement on generated inputs (bounded sample). Compressed vectors' change records are not modelled under C17 (their rollback is covered by C04/C16 engines only)."),
 )
